@@ -267,6 +267,265 @@ PROPERTIES["C15"] = {
     "technique": "TLC-enumerated crash points (byte-by-byte writer process) and malformed files replayed on the real loaders in sandboxed children under ASan/UBSan",
 }
 
+def c17_run(pid, tier, seed):
+    """No undefined behaviour on valid use: the specification-generated VALID workloads of the
+    other checks (state-graph walks, constructions, searches, file round trips), executed in
+    several build configurations; every configuration must agree with the specification after
+    every step (hence with each other) and no sanitizer / debug-mode diagnostic may fire."""
+    import algo
+    import concurrent.futures
+    q = tier == "quick"
+    builds = ["dbg", "asan", "clang"] + ([] if q else ["o2"])
+    S = props_machine.S
+    F = (False, True)
+
+    def machine_scns(b):
+        fo = props_machine._force_ops
+        out = [S("dn3-" + b, "dn", 3 if not q else 2, reps=1), S("un3-" + b, "un", 3, reps=1),
+               S("dl2-" + b, "dl", 2, labels=(0, 1), reps=1), S("ul2-" + b, "ul", 2, labels=(0, 1), reps=1),
+               S("dm2-" + b, "dm", 2, reps=1), S("um2-" + b, "um", 2, reps=1),
+               S("dw2-" + b, "dw", 2, reps=1), S("uw2-" + b, "uw", 2, reps=1),
+               S("dn2f-" + b, "dn", 2, ops=fo("dn"), forces=F, maxcopies=2, reps=1),
+               S("un2f-" + b, "un", 2, ops=fo("un"), forces=F, maxcopies=2, reps=1),
+               S("um2f-" + b, "um", 2, ops=fo("um"), mults=(1, 2), maxmult=4, forces=F, maxcopies=2, reps=1),
+               S("dw2f-" + b, "dw", 2, ops=fo("dw"), forces=F, maxcopies=2, reps=1)]
+        for s in out:
+            s.trace = {"histories": 3 if q else 30, "steps": 120, "nmax": 6, "families": None}
+            if s.group in ("dl", "ul"):
+                s.trace["histories"] = 1 if q else 5
+        return out
+
+    def algo_sets(b):
+        C = algo.Cases
+        sets = [C("rev-" + b, "labeled", "reverse", 2, (0, 1)), C("tod-" + b, "labeled", "todirected", 2 if q else 3, (0, 1)),
+                C("tou-" + b, "nolabel", "toundirected", 3), C("el-" + b, "labeled", "edgelist", 3, (0, 1), maxlen=2),
+                C("elm-" + b, "multi", "edgelist", 3, (0, 1, 2), maxlen=2),
+                C("elw-" + b, "weighted", "edgelist", 3, attrs_def="AttrsNeg", maxlen=2),
+                C("sg-" + b, "labeled", "subgraphU", 3, (0, 1)),
+                C("bfsd-" + b, "nolabel", "searchD", 3, families=props_algo.NOLABEL),
+                C("bfsu-" + b, "nolabel", "searchU", 3 if q else 4, families=props_algo.NOLABEL),
+                C("dijd-" + b, "weighted", "dijkstraD", 2, (0, 1, 2)), C("diju-" + b, "weighted", "dijkstraU", 3, (0, 1, 2)),
+                algo.IterCases("it-d-" + b, True, 2 if q else 3, families=props_algo.NOLABEL),
+                algo.IterCases("it-u-" + b, False, 3, maxins=4, families=props_algo.NOLABEL)]
+        return sets
+
+    def io_sets(b):
+        B, T = algo.BinCases, algo.TextCases
+        return [B("brt-d2-" + b, True, 2, "roundtrip"), B("brt-u0-" + b, False, 0, "roundtrip"),
+                B("brt-d8-" + b, True, 8, "roundtrip", labels=(2, 258)), B("brec-" + b, False, 2, "records"),
+                T("trt-s-" + b, True, "string", "roundtrip"), T("trt-n-" + b, False, "none", "roundtrip"),
+                T("trt-i-" + b, False, "int", "roundtrip", maxn=2), T("tld-" + b, True, "string", "load", maxedges=1, lineset="small"),
+                T("tnm-" + b, True, "string", "named", maxedges=2, lineset="tiny")]
+
+    def one_build(b):
+        gh = vf.build_gh(b)
+        ah = vf.build_ah(b)
+        io = vf.build_ioh(b)
+        scns = machine_scns(b)
+        mres, v1 = props_machine.run_scenarios(pid, scns, seed, gh)
+        d = vf.fresh_dir(os.path.join(vf.RUN, pid, "files-" + b))
+        sp = os.path.join(d, "search.ndjson")
+        props_algo.write_search_cases(sp, seed, "quick")
+        ares, v2 = props_algo.run_all(pid, algo_sets(b), [("search-files-" + b, sp, {"families": props_algo.NOLABEL + ["multigraph+weighted classes"]})],
+                                      seed, ah, validate=(b == "dbg"))
+        ires, v3 = props_algo.run_all(pid, io_sets(b), [], seed, io, validate=False)
+        for v in v1 + v2 + v3:
+            v["what"] = "[build %s] %s" % (b, v["what"])
+        return b, mres, scns, ares + ires, v1 + v2 + v3
+
+    violations, per_build = [], {}
+    evaluations, distinct = 0, 0
+    samples = []
+    with concurrent.futures.ThreadPoolExecutor(max_workers=2) as ex:
+        for b, mres, scns, ares, v in ex.map(one_build, builds):
+            violations += v
+            mc = props_machine.coverage_of(mres, scns)
+            ac = props_algo.coverage_of(ares)
+            per_build[b] = {"compiler_flags": " ".join([vf.BUILD_CONFIGS[b][0]] + vf.BUILD_CONFIGS[b][1]),
+                            "state_graph_transitions_executed": mc["spec_transitions_executed_on_impl"],
+                            "object_executions": mc["impl_executions"], "recorded_events_validated": mc["trace_events_validated"],
+                            "construction_search_io_cases": ac["cases_executed_on_impl"], "case_runs": ac["impl_runs"]}
+            evaluations += mc["impl_executions"] + ac["impl_runs"]
+            distinct = max(distinct, mc["spec_transitions_executed_on_impl"] + ac["cases_executed_on_impl"])
+            if not samples:
+                samples = mc["samples"][:2] + ac["samples"][:3]
+    cov = {
+        "evaluations": evaluations,
+        "distinct_nontrivial": distinct,
+        "rule": "valid workloads generated from the specification: every transition of the state graphs of the eight classes "
+                "(force on and off, <=2-3 vertices), recorded random histories, every small input of the constructions, "
+                "searches (incl. random and path-explosive graphs), iterators and file round trips; rejected calls and "
+                "malformed files are excluded (they belong to C07/C15); distinct = distinct spec transitions + distinct cases "
+                "(each is run in every build); a case is non-trivial when it executes library code, which all do; verdict: in "
+                "every build the results equal the specification's and no ASan/UBSan/_GLIBCXX_DEBUG diagnostic or crash occurs",
+        "samples": samples or [{"note": "none"}],
+        "builds": per_build,
+    }
+    return violations, cov, ["undefined behaviour is observed only through wrong results, crashes, AddressSanitizer, "
+                             "UndefinedBehaviorSanitizer and libstdc++ debug-mode assertions; reads of uninitialised values are "
+                             "seen only if they change a result (no MemorySanitizer-instrumented libstdc++ is installed)",
+                             "the harness itself is compiled as C++17; the library headers are those of the working tree"]
+
+
+PROPERTIES["C17"] = {
+    "run": c17_run, "level": "exploration",
+    "text": "the TLA+ specification cannot state 'no UB'; it supplies the set of valid histories and inputs (exactly the "
+            "quantifier of C01-C16) and the expected results; those workloads are executed in g++ -O0 with libstdc++ debug mode, "
+            "clang -O2, clang -O1 with ASan+UBSan (and g++ -O2 in the thorough tier; g++ -O1 is the build of every other check) and every "
+            "configuration must reproduce the specification's results with no diagnostic",
+    "note": "exploration with instrumented-execution oracles; MSan not available; coverage = the spec-generated workloads listed in the evidence",
+    "technique": "spec-generated valid workloads replayed under sanitizers and debug-mode standard library; cross-configuration agreement via the specification's expected results",
+}
+
+def c18_run(pid, tier, seed):
+    """Concurrent read-only use: Readers.tla model checked over all interleavings; the real
+    const entry points run by real threads under ThreadSanitizer; empty write sets shown on
+    the real objects; the merged Begin/End log validated by TLC (ReadersTrace.tla)."""
+    import concurrent.futures
+    import shutil
+    import algo
+    q = tier == "quick"
+    violations = []
+    d = vf.fresh_dir(os.path.join(vf.RUN, pid, "readers"))
+    os.makedirs(vf.REPLAYS, exist_ok=True)
+    # 1. the design: all interleavings of 2 (3) threads x 2 operations
+    consts = {"Threads": "= {1, 2}" if q else "= {1, 2, 3}", "Ops": "<- OpsPure", "Cells": "<- CellsAll",
+              "ReadSeq": "<- ReadPure", "WriteCells": "<- WriteNone", "MaxOps": "= 2" if q else "= 1"}
+    cfg = vf.write_cfg(os.path.join(d, "ReadersMC.cfg"), consts, invariants=["RaceFree", "Deterministic", "Unmodified"])
+    log = os.path.join(d, "tlc.log")
+    with open(log, "wb") as f:
+        subprocess.run(vf.tlc_cmd("ReadersMC.tla", cfg, os.path.join(d, "md"), workers=8), cwd=vf.SPEC, stdout=f,
+                       stderr=subprocess.STDOUT, timeout=3000, env=algo._env())
+    tl = vf.parse_tlc_output(open(log, errors="replace").read())
+    shutil.rmtree(os.path.join(d, "md"), ignore_errors=True)
+    if tl["violation"]:
+        violations.append({"replay": log, "what": "Readers.tla: " + tl["violation"]})
+    elif not tl["ok"]:
+        raise vf.Infra("TLC did not finish on ReadersMC: %s (%s)" % (tl["error"], log))
+    # 2. real threads
+    runs = []
+    for build, threads, iters in ([("tsan", 4, 25 if q else 150), ("o1", 8, 60 if q else 600)]):
+        exe = vf.build_ch(build)
+        rd = vf.fresh_dir(os.path.join(vf.RUN, pid, "conc-" + build))
+        logs = vf.fresh_dir(os.path.join(rd, "logs"))
+        plan = {"threads": threads, "iterations": iters, "seed": int(seed), "vertices": 8 if q else 10,
+                "tmp": vf.fresh_dir(os.path.join(rd, "tmp")), "log_dir": logs}
+        planf = os.path.join(rd, "plan.json")
+        with open(planf, "w") as f:
+            json.dump(plan, f)
+        env = dict(os.environ)
+        env["TSAN_OPTIONS"] = "halt_on_error=0 exitcode=66 report_signal_unsafe=0"
+        r = subprocess.run([exe, planf], stdout=subprocess.PIPE, stderr=subprocess.PIPE, timeout=3000, env=env)
+        out, err = r.stdout.decode(errors="replace"), r.stderr.decode(errors="replace")
+        summary = None
+        for ln in out.splitlines():
+            if ln.startswith("SUMMARY "):
+                summary = json.loads(ln[8:])
+        races = err.count("WARNING: ThreadSanitizer")
+        runs.append({"build": build, "threads": threads, "iterations": iters, "summary": summary, "rc": r.returncode,
+                     "tsan_reports": races, "logs": logs})
+        if races or "ThreadSanitizer" in err:
+            path = os.path.join(vf.REPLAYS, "%s-tsan.txt" % pid)
+            with open(path, "w") as f:
+                f.write(err[:200000])
+            first = [l for l in err.splitlines() if "data race" in l or "#0" in l][:3]
+            violations.append({"replay": path, "what": "ThreadSanitizer: %d report(s): %s" % (races, " | ".join(first)[:300])})
+        if summary is None:
+            path = os.path.join(vf.REPLAYS, "%s-conc-%s-crash.txt" % (pid, build))
+            with open(path, "w") as f:
+                f.write(err[-20000:])
+            if not races:
+                violations.append({"replay": path, "what": "concurrent harness (%s build) died with status %s" % (build, r.returncode)})
+            continue
+        for c in summary["classes"]:
+            if c["write_set_violations"] or c["result_mismatches"]:
+                path = os.path.join(vf.REPLAYS, "%s-conc-%s-%s.json" % (pid, build, c["class"]))
+                with open(path, "w") as f:
+                    json.dump({"kind": "conc", "build": build, "plan": plan, "class": c}, f, indent=1)
+                violations.append({"replay": path, "what": "%s (%s build): %s" % (c["class"], build,
+                                   "; ".join(c["write_set_violations"] + ["thread result differs from the sequential one: " + m
+                                                                             for m in c["result_mismatches"]])[:300])})
+    # 3. TLC validation of the merged Begin/End logs
+    validated, events, overlaps = 0, 0, 0
+    jobs = []
+    for run in runs:
+        if run["summary"] is None:
+            continue
+        for fn in sorted(os.listdir(run["logs"])):
+            jobs.append((run["build"], os.path.join(run["logs"], fn)))
+
+    def val(job):
+        build, path = job
+        vd = path + ".d"
+        os.makedirs(vd, exist_ok=True)
+        cfgp = vf.write_cfg(os.path.join(vd, "ReadersTrace.cfg"), {}, init="TInit", nxt="TNext", invariants=["ReportOverlaps"],
+                            postcondition="TraceAccepted")
+        txt = open(cfgp).read().replace("CONSTANTS\n", "")
+        open(cfgp, "w").write(txt)
+        env = algo._env()
+        env["TRACE"] = path
+        r = subprocess.run(vf.tlc_cmd("ReadersTrace.tla", cfgp, os.path.join(vd, "md"), workers=1, heap="2g"), cwd=vf.SPEC,
+                           stdout=subprocess.PIPE, stderr=subprocess.STDOUT, timeout=3000, env=env)
+        text = r.stdout.decode(errors="replace")
+        shutil.rmtree(os.path.join(vd, "md"), ignore_errors=True)
+        with open(os.path.join(vd, "tlc.log"), "w") as f:
+            f.write(text)
+        p = vf.parse_tlc_output(text)
+        n = sum(1 for _ in open(path))
+        m = re.search(r'<<"OVERLAPS", (\d+)>>', text)
+        return {"path": path, "build": build, "events": n, "accepted": bool(p["ok"] and (p["depth"] or 0) == n),
+                "matched": p["depth"], "overlaps": int(m.group(1)) if m else 0, "error": p["error"], "log": os.path.join(vd, "tlc.log")}
+
+    with concurrent.futures.ThreadPoolExecutor(max_workers=6) as ex:
+        vals = list(ex.map(val, jobs))
+    for v in vals:
+        if v["accepted"]:
+            validated += 1
+            events += v["events"]
+            overlaps += v["overlaps"]
+        else:
+            if v["matched"] in (None, 0, 1) and v["error"] and "Postcondition" not in v["error"]:
+                raise vf.Infra("log validation failed to run: %s (%s)" % (v["error"], v["log"]))
+            path = os.path.join(vf.REPLAYS, "%s-log-%s-%s" % (pid, v["build"], os.path.basename(v["path"])))
+            shutil.copy(v["path"], path)
+            violations.append({"replay": path, "what": "concurrent log rejected at event %s of %d: a thread's result differs "
+                                                        "from the sequential one, or Begin/End do not alternate" % (v["matched"], v["events"])})
+    ops = sorted({o for run in runs if run["summary"] for c in run["summary"]["classes"] for o in c["ops"]})
+    total_ops = sum(c["threads"] * c["iterations_per_thread_per_phase"] * 2 for run in runs if run["summary"]
+                    for c in run["summary"]["classes"])
+    cov = {
+        "evaluations": total_ops,
+        "distinct_nontrivial": sum(len(c["ops"]) for run in runs[:1] if run["summary"] for c in run["summary"]["classes"]),
+        "rule": "Readers.tla is model checked over ALL interleavings of 2-3 reader threads (RaceFree, Deterministic, Unmodified "
+                "hold iff no operation writes shared cells); on the real code every const entry point group (observers and edge/vertex "
+                "iteration, state, copy+equality, stream output, subgraph extraction, all BFS searches, reversal, conversions, "
+                "Dijkstra, file writers to distinct files) of eight classes is (a) shown to leave the object's bytes and containers "
+                "unchanged, (b) run by 4 threads under ThreadSanitizer and by 8 threads in an optimised build with every result "
+                "compared to the sequential one; distinct = (class, entry-point group) pairs; evaluations = operations run by threads",
+        "samples": [{"class": c["class"], "ops": c["ops"]} for run in runs[:1] if run["summary"] for c in run["summary"]["classes"][:3]],
+        "states": tl["distinct"], "transitions": tl["generated"],
+        "traces_validated_against_impl": validated, "trace_events_validated": events,
+        "begin_events_overlapping_another_operation": overlaps,
+        "tsan_reports": sum(r["tsan_reports"] for r in runs),
+        "entry_point_groups": ops,
+        "runs": [{k: r[k] for k in ("build", "threads", "iterations", "rc", "tsan_reports")} for r in runs],
+    }
+    return violations, cov, ["the data-race verdict rests on ThreadSanitizer over the schedules that actually occurred (not all "
+                             "schedules); the all-interleavings argument is on the model and needs the write sets to be empty, which is "
+                             "checked on the real objects by before/after snapshots of object bytes and container contents",
+                             "libstdc++ is not TSan-instrumented; races inside it are seen only through interceptors"]
+
+
+PROPERTIES["C18"] = {
+    "run": c18_run, "level": "exploration",
+    "text": "Readers.tla: all interleavings of reader threads over memory-cell accesses; race freedom and determinism hold iff "
+            "every operation's write set is empty (negative config with a caching operation fails both); on the real classes the "
+            "write sets are shown empty by byte/container snapshots, threads run every const entry point group under "
+            "ThreadSanitizer, all results are compared with the sequential ones and the merged Begin/End log is validated by TLC",
+    "note": "schedules on the real code are sampled, not enumerated; TSan is the race oracle",
+    "technique": "TLA+ interleaving model checked by TLC + TLC validation of logs from real threads + ThreadSanitizer + write-set snapshots",
+}
+
 NOT_APPLICABLE = {
     "C20": "compile-/link-time well-formedness of templates and headers: there is no state, transition or observable "
            "behaviour for a TLA+ specification to describe or for a trace to bind (DESIGN.md section 5)",
